@@ -27,4 +27,22 @@ CHECKS = {
         design_ref="DESIGN.md §4 C16",
         note="Uses pyxform's public builder/to_json_dict/workbook_to_json entry points; two genuine defects found here were fixed in /repo (see known_findings.json).",
     ),
+    "C03": dict(
+        technique="bounded-exhaustive enumeration of referrer/target container layouts x cell kinds plus Hypothesis random forms; oracle = reference model of the instance tree + static path resolver (each substituted token must reach the target; relative where the statement demands; current() in predicates), and missing/ambiguous-name mutations",
+        text="Every layout of group/repeat containers around a referrer and a target up to depth 3 (quick) or 4 (thorough) is converted for 16 cell kinds; random forms add several references per expression, indexed-repeat, instance(), pulldata, last-saved, references to enclosing repeats and name-prefix clashes. Exhaustive only over the layout sub-space.",
+        design_ref="DESIGN.md §4 C03",
+        note="XPath is not evaluated over data; reaching the target is decided by static resolution of the path shapes pyxform emits. Six genuine defects found here were fixed in /repo.",
+    ),
+    "C04": dict(
+        technique="property-based testing against a reference model (abstract tree -> expected instance and body trees, restated type table)",
+        text="Random forms with every question type, deep nesting, table-list, or_other, repeat_count helpers, meta rows and noise rows; the parsed primary instance (templates removed) and h:body control tree must equal the model's trees node for node, in order, with the prescribed tags and static attributes.",
+        design_ref="DESIGN.md §4 C04",
+        note="Model restated from XLSForm docs in vf/ref/expect.py and vf/ref/typetable.py and calibrated on the unchanged tree.",
+    ),
+    "C05": dict(
+        technique="property-based testing against a reference model of bind attributes (restated alias/type tables), with column alias and column order randomisation",
+        text="Random forms with dense logic columns under random documented aliases and column orders; each bind's whole attribute dict must equal the model's (missing, extra, misplaced and altered attributes are separate clauses).",
+        design_ref="DESIGN.md §4 C05",
+        note="Substituted references are matched structurally (C03 decides whether relative tokens reach the target). Entity binds are C19's.",
+    ),
 }
